@@ -9,6 +9,7 @@ import (
 	"os"
 	"runtime/debug"
 	"runtime/pprof"
+	"strconv"
 	"time"
 
 	"verif/internal/cards"
@@ -63,6 +64,12 @@ func main() {
 	if len(args) < 1 {
 		fmt.Fprintln(os.Stderr, "usage: vcheck <ID> [quick|thorough] | vcheck replay <file>")
 		os.Exit(2)
+	}
+	if args[0] == "conc-child" {
+		// vcheck conc-child <harness> <preemption bound>: one C18 harness in its own process
+		b, _ := strconv.Atoi(args[2])
+		seats.RunHarnessChild(args[1], b)
+		os.Exit(0)
 	}
 	if args[0] == "probe" {
 		// vcheck probe '<config json>' : explore one configuration with the C01 oracle and print sizes
